@@ -1,6 +1,7 @@
 package live
 
 import (
+	"bytes"
 	"crypto/sha256"
 	"encoding/hex"
 	"encoding/json"
@@ -35,7 +36,22 @@ func (j *Journal) Begin(header interface{}) {
 		return
 	}
 	j.f = f
-	j.line(header)
+	j.header(header)
+}
+
+// header writes the first line of a case. The guards the process runs with are recorded in
+// it, so that a replay judges the case under the same steering as the run that produced it.
+func (j *Journal) header(v interface{}) {
+	b, _ := json.Marshal(v)
+	if g := os.Getenv("VERIF_GUARDS"); g != "" && len(b) > 2 && b[0] == '{' && !bytes.Contains(b, []byte(`"guards":`)) {
+		q, _ := json.Marshal(g)
+		b = append(append([]byte(`{"guards":`), append(q, ',')...), b[1:]...)
+	}
+	j.h = append(j.h, b...)
+	j.h = append(j.h, '\n')
+	if j.f != nil {
+		j.f.Write(append(b, '\n'))
+	}
 }
 
 func (j *Journal) line(v interface{}) {
